@@ -49,7 +49,11 @@ Print Assumptions c12_dest_no_write_after_cancel.
 (* each of the ways to cancel establishes the invariant: (i) an accepted cancel request, (ii) a declared fault
    whose handler is the notice of cancellation, (iii) an EOF PDU with a condition other than No Error, (iv) the same
    EOF (cancel) received before the Metadata (first PDU of the transaction, or while the Metadata is still missing):
-   since the F32 repair it is handled by literally the same procedure as (iii).  (ii) and (iii)
+   since the F32 repair it is handled by literally the same procedure as (iii), (v) the same EOF (cancel) received
+   while the receiver waits for missing data (deferred lost-segment procedure running): since the F33 repair it stops
+   that procedure and is handled by the same procedure as (iii); stated for the whole busy call, which ends at the
+   EOF ACK with nothing written (DestCancelInvProofs.CounterExamples.eof_cancel_while_waiting_for_missing_data).
+   (ii) and (iii)
    happen inside a state machine call that may have written the File Data PDU it was given before the fault was
    declared (CounterExamples.write_then_cancel_in_one_call): the invariant speaks about the calls that follow.
    (iii) and (iv) need a transmission mode that exists (CounterExamples.mode_needed). *)
@@ -72,6 +76,12 @@ Theorem c12_dest_cancel_establishes :
         handle_eof_without_previous_metadata c ck sz s = (s', Ok tt) ->
         dest_cancelled s' /\ fs_d s' = fs_d s /\
         (h_mode (p_conf (d_p s)) = UNACKED -> d_step s' = DS_TRANSFER_COMPLETION) /\
-        (h_mode (p_conf (d_p s)) = ACKED -> d_step s' = DS_SENDING_EOF_ACK))).
+        (h_mode (p_conf (d_p s)) = ACKED -> d_step s' = DS_SENDING_EOF_ACK))) /\
+  (* an EOF (cancel) received while the acknowledged-mode receiver waits for missing data stops the deferred
+     lost-segment procedure and is handled by the same procedure (F33 repair): the whole busy call *)
+  (forall fuel h c ck sz fl s s', d_state s = ST_BUSY -> d_step s = DS_WAITING_FOR_MISSING_DATA -> c <> C_NO_ERROR ->
+     h_mode (p_conf (d_p s)) = ACKED ->
+     non_idle_fsm fuel (Some (PEof h c ck sz fl)) s = (s', Ok tt) ->
+     dest_cancelled s' /\ fs_d s' = fs_d s /\ d_step s' = DS_SENDING_EOF_ACK /\ p_deferred (d_p s') = false).
 Proof. exact dest_cancel_establishes. Qed.
 Print Assumptions c12_dest_cancel_establishes.
